@@ -890,9 +890,10 @@ def run_case(spec, ctx):
         if iso and inf.type == "ValueError" and inf.where.endswith("add_cpds"):
             ctx.violation("c17:isolated-slice-node", f"DBNInference(model) raised {inf!r}: variables {iso} have no "
                           f"intra-slice edge", intra=tpl["intra"], inter=tpl["inter"])
-        elif not conn:
-            ctx.violation("c17:disconnected-slice", f"DBNInference(model) raised {inf!r}: a slice graph is disconnected",
-                          intra=tpl["intra"], inter=tpl["inter"])
+        elif not conn and inf.type == "ValueError":
+            # the library refuses disconnected clique trees by design (see C02's quantifier): a refusal, not a violation
+            ctx.note("refused:disconnected-slice")
+            ctx.feature("disconnected-slice-refused")
         else:
             ctx.violation(f"c17:exception:{inf.type}@{inf.where}", f"DBNInference(model) raised {inf!r}",
                           intra=tpl["intra"], inter=tpl["inter"])
